@@ -164,6 +164,7 @@ pub static DRIVERS: &[Driver] = &[
     Driver { name: "fdselect", run: crate::capsweep::fdselect_driver },
     Driver { name: "bytecode", run: crate::drivers4::bytecode_driver },
     Driver { name: "charset", run: crate::capsweep::charset_driver },
+    Driver { name: "extarg", run: crate::extarg::extarg_driver },
 ];
 
 pub fn find(name: &str) -> Option<usize> {
